@@ -62,6 +62,18 @@ impl Res {
     }
 }
 
+/// Channel, cache and idle resources are per store instance: instance k > 0
+/// gets its own bits so that an old instance's worker and a new instance do
+/// not look dependent through them.
+pub fn inst_bits(bits: u32, inst: usize) -> u32 {
+    if inst == 0 || bits & R_ALL != 0 {
+        return bits;
+    }
+    let per_inst = R_CHAN | R_CACHE | R_IDLE;
+    let shift = 8 * (inst.min(2) as u32);
+    (bits & !per_inst) | ((bits & per_inst) << shift)
+}
+
 // ---- transitions -----------------------------------------------------------
 
 #[derive(Clone, Debug, PartialEq, Eq)]
@@ -398,6 +410,16 @@ impl raft_log::verif_hooks::Probe for HookProbe {
                     i.trace.push(Event::Hook { tid: t, point, a });
                 });
             }
+            "caller.disconnect" => {
+                let Some(t) = tid else { return };
+                with_inner(|i| {
+                    let inst = i.slots[t].inst;
+                    if inst < i.sender_dropped.len() {
+                        i.sender_dropped[inst] = true;
+                    }
+                    i.trace.push(Event::Hook { tid: t, point, a });
+                });
+            }
             "worker.batched" => {
                 let Some(t) = tid else { return };
                 with_inner(|i| {
@@ -415,6 +437,7 @@ impl raft_log::verif_hooks::Probe for HookProbe {
                     "worker.evictable" => R_CACHE,
                     "worker.cb" => R_ACK,
                     "caller.send" => R_CHAN | R_IDLE,
+                    "caller.join" => R_CHAN | R_IDLE,
                     // pure bookkeeping points: recorded, not scheduling points
                     // (done_seq is only read by wait_worker_idle, which the
                     // harness models by the WaitIdle gate; the non-flush
@@ -518,6 +541,10 @@ fn enabled_now(i: &Inner, ch: &dyn Chooser) -> Vec<Enabled> {
         let Some(p) = &s.pending else { continue };
         let en = match &p.point {
             Point::Hook("worker.recv", _) => !i.queues[s.inst].is_empty() || i.sender_dropped[s.inst],
+            Point::Hook("caller.join", _) => match i.worker_of_inst.get(s.inst).copied().flatten() {
+                None => true,
+                Some(wt) => i.slots[wt].state == TState::Finished,
+            },
             Point::Op(_, OpGate::WaitAck(id)) => i.trace.iter().any(|e| matches!(e, Event::Ack(a) if a.id() == *id)),
             Point::Op(_, OpGate::WaitIdle(inst)) => match i.worker_of_inst.get(*inst).copied().flatten() {
                 None => true,
@@ -547,6 +574,7 @@ fn enabled_now(i: &Inner, ch: &dyn Chooser) -> Vec<Enabled> {
                 res.bits &= !R_CHAN;
             }
         }
+        res.bits = inst_bits(res.bits, s.inst);
         let base = Enabled {
             tid,
             label: p.label(),
